@@ -269,6 +269,30 @@ class Assembler:
                         self.fired.add('5:drop-metrics-block')
                         k = kc + 1
                         continue
+            # 14: let-chain  `if let PAT = EXPR && COND { BODY }` (no else)  ->  `if let PAT = EXPR { if COND { BODY } }`
+            # (Verus rejects let-chains; without an else branch the nesting is the language's own definition of the chain)
+            if s.is_id(k, 'if') and s.is_id(k + 1, 'let') and not s.is_id(k - 1, 'else'):
+                j = k + 2
+                d = 0
+                k_and = None
+                while j < end:
+                    if s.kind(j) == 'p':
+                        c = s.s(j)
+                        if c in '([':
+                            j = m[j] + 1
+                            continue
+                        if c == '{':
+                            break
+                        if c == '&&' and k_and is None:
+                            k_and = j
+                    j += 1
+                if k_and is not None and j < end:
+                    kc = m[j]
+                    if s.is_id(kc + 1, 'else') or any(s.is_id(q, 'let') for q in range(k_and + 1, j)):
+                        raise ExtractError('unsupported construct: let-chain with an else branch or a second `let` in fn %s' % fp.item.name)
+                    ed.replace(s.t[k_and][1], s.t[k_and][2], '{ if')
+                    ed.insert(s.t[kc][2], ' }')
+                    self.fired.add('14:let-chain-to-nested-if')
             # if log_enabled!(..) { .. }   (logging only)
             if s.is_id(k, 'if') and s.is_id(k + 1, 'log_enabled') and s.is_p(k + 2, '!') and s.is_p(k + 3, '('):
                 kb_ = m[k + 3] + 1
